@@ -9,7 +9,9 @@ EXPLANATION = (
     "filled and emptied at opposite ends (FIFO) and is consulted before any bucket, on both back ends; (R3) the per-event "
     "buffer is flushed to the runtime by a forward drain and never reordered (no sort/reverse/swap/remove/insert/mutable "
     "escape on that vector anywhere); (R4) no pointer-to-integer cast or pointer comparison other than is_null in the "
-    "calendar queue's ordering code. Decides these necessary conditions only; not the end-to-end tie order of histories.")
+    "calendar queue's ordering code. "
+    '(R1 also covers every other time-ordered list walk of the queue; R3 also requires a single buffer per kind and no push_front.) '
+    "Decides these necessary conditions only; not the end-to-end tie order of histories.")
 ASSUMPTIONS = ["VecDeque::push_back/pop_front are opposite ends; Vec::drain(..) yields in index order"]
 USES_B = True
 
